@@ -81,6 +81,11 @@ class Lib:
                 return outer.args[int(m.group(1))]
             if outer.kind == 'tuple':
                 return outer.args[int(m.group(1))]
+        m = re.match(r'^(?:std::)?unique_ptr<(.*)>$', s)
+        if m:
+            e = em.T(split_top(m.group(1))[0])
+            if e.kind in ('str', 'rec', 'int'):
+                return TI('uptr', e.c + ' *', elem=e, name=s)
         m = re.match(r'^(?:std::)?vector<(.*)>$', s)
         if m:
             parts = split_top(m.group(1))
@@ -94,7 +99,7 @@ class Lib:
             parts = split_top(m.group(2))
             e = em.T(parts[0])
             if e.kind in ('int', 'rec', 'ptr'):
-                return TI('vit', 'long', elem=e, name=s)
+                return TI('vit', e.c + ' *', elem=e, name=s)
         m = re.match(r'^(?:std::)?chrono::duration<(long|long long|int), std::ratio<1, (\d+)>>$', s)
         if m:
             return TI('dur', 'long', name=s, n=int(m.group(2)))
@@ -116,6 +121,10 @@ class Lib:
         return None
 
     def enum_constant(self, em, n):
+        # enumerators of library / out-of-filter enums: error conditions are named constants
+        t = qt(n)
+        if 'error' in t or 'errc' in t:
+            return self.ec_const(em, n['referencedDecl']['name'])
         return None
 
     def global_ref(self, em, n):
@@ -168,6 +177,8 @@ class Lib:
             return '0'
         if ti.kind in ('pair', 'vec') and len(args) == 0:
             return '((%s){0})' % ti.c
+        if ti.kind == 'vec' and len(args) == 1 and em.T(qt(args[0])).kind == 'vec':
+            return em.e(args[0])
         if ti.kind == 'pair':
             if len(args) == 2:
                 return '%s_make(%s, %s)' % (ti.c, em.e(args[0]), em.e(args[1]))
@@ -184,7 +195,22 @@ class Lib:
                     return self.sv_literal(em, self._strlit(args[0]))
             if len(args) == 0:
                 return 'sv_empty_view()'
-        if ti.kind in ('it', 'ec', 'dur', 'vit'):
+        if ti.kind == 'ec':
+            real = [a for a in args if a.get('kind') != 'CXXDefaultArgExpr']
+            if len(real) == 0:
+                return 'EC_OK'
+            if len(real) == 1:
+                return self.ec_val(em, real[0])
+        if ti.kind == 'dur':
+            if len(args) == 1:
+                at = em.T(qt(args[0]))
+                if at.kind == 'dur' and at.n != ti.n and at.n and ti.n:
+                    # duration_cast-free implicit conversion is only allowed to a finer unit
+                    return '(%s * %dl)' % (em.e(args[0]), ti.n // at.n)
+                return '((long)%s)' % em.e(args[0])
+            if len(args) == 0:
+                return '0l'
+        if ti.kind in ('it', 'vit'):
             if len(args) == 1:
                 return em.e(args[0])
             if len(args) == 0:
@@ -236,6 +262,14 @@ class Lib:
                 nm = 'lower_bound__' + t0.elem.mangle()
                 self.gen_once(nm, 'DEF_LOWER_BOUND_PTR(%s, %s, %s)' % (nm, t0.elem.c, less))
                 return '%s(%s, %s, %s)' % (nm, em.e(args[0]), em.e(args[1]), em.addr(args[2]))
+        if name == 'max' and len(args) == 0 and cnode is not None:
+            t = em.T(qt(n))
+            if t.c == 'long':
+                return '0x7fffffffffffffffl'
+            if t.c == 'int':
+                return '0x7fffffff'
+            if t.c == 'unsigned int':
+                return '0xffffffffu'
         if name == 'distance' and len(args) == 2:
             t0 = em.T(qt(args[0]))
             if t0.kind in ('it', 'vit', 'ptr'):
@@ -283,6 +317,18 @@ class Lib:
                 return '((%s)->has = 0)' % o
             if m == 'emplace' and len(args) == 1:
                 return '%s_emplace(%s, %s)' % (inner.c, o, em.e(args[0]))
+        if inner.kind == 'uptr':
+            if m == 'get':
+                return '(*%s)' % o
+            if m == 'operator bool':
+                return '((*%s) != 0)' % o
+        if inner.kind == 'ec':
+            if m == 'operator bool':
+                return '((*%s) != EC_OK)' % o
+            if m in ('value',):
+                return '(*%s)' % o
+            if m == 'failed':
+                return '((*%s) != EC_OK)' % o
         if inner.kind == 'dur' and m == 'count':
             return '(*%s)' % o
         if inner.kind == 'vec':
@@ -336,6 +382,11 @@ class Lib:
                 if t1.kind == 'nullopt':
                     return '(%s.has = 0)' % em.e(args[0])
                 return '(%s = %s_some(%s))' % (em.e(args[0]), t0.c, em.e(args[1]))
+        if t0.kind == 'uptr':
+            if name == 'operator*':
+                return '(*%s)' % em.e(args[0])
+            if name == 'operator->':
+                return em.e(args[0])
         if t0.kind in ('it', 'vit'):
             return self.iter_op(em, n, name, args, t0)
         if t0.kind in ('sv', 'pair', 'ec', 'dur', 'str') and name == 'operator=':
@@ -345,7 +396,20 @@ class Lib:
                 return '(%s %s %s)' % (self.ec_val(em, args[0]), name[8:], self.ec_val(em, args[1]))
         return None
 
+    def ec_const(self, em, name):
+        nm = 'EC_' + sanitize(name)
+        if nm not in em.ec_consts:
+            em.ec_consts.append(nm)
+        return nm
+
     def ec_val(self, em, a):
+        x = a
+        while x.get('kind') in ('ImplicitCastExpr', 'CXXConstructExpr', 'MaterializeTemporaryExpr', 'CXXFunctionalCastExpr', 'ExprWithCleanups', 'CXXBindTemporaryExpr') and len([c for c in x.get('inner', []) if c.get('kind') != 'CXXDefaultArgExpr']) == 1:
+            x = [c for c in x['inner'] if c.get('kind') != 'CXXDefaultArgExpr'][0]
+        if x.get('kind') == 'DeclRefExpr' and x['referencedDecl'].get('kind') == 'EnumConstantDecl':
+            return self.ec_const(em, x['referencedDecl']['name'])
+        if x.get('kind') == 'CXXConstructExpr' and not x.get('inner') and em.T(qt(x)).kind == 'ec':
+            return 'EC_OK'
         return em.e(a)
 
     def iter_op(self, em, n, name, args, t0):
@@ -353,7 +417,11 @@ class Lib:
         if name == 'operator*':
             if t0.kind == 'it':
                 return '(*it_deref(%s))' % a0
-            return None
+            return '(*%s)' % a0
+        if name == 'operator->' and t0.kind == 'vit':
+            return a0
+        if t0.kind == 'vit' and name in ('operator+', 'operator-') and len(args) == 2:
+            return '(%s %s %s)' % (a0, name[8:], em.e(args[1]))
         if name in ('operator++', 'operator--'):
             op = name[8:]
             # postfix has a dummy int argument
